@@ -181,6 +181,62 @@ func VerifC23History() {
 	}
 }
 
+// Scripted histories: (a) a definition request answered before the document changes must not influence the answer after the
+// change (the second text swaps two declarations); (b) diagnostics whose origin spans several lines (LALR conflicts on rules
+// written over two lines) stay inside the document.
+var verifSwap = [...]string{
+	"language g(go);\n:: lexer\nab: /a/\ncd: /c/\n:: parser\ninput: ab cd;\n",
+	"language g(go);\n:: lexer\ncd: /c/\nab: /a/\n:: parser\ninput: ab cd;\n",
+}
+
+const verifConflictDoc = "language g(go);\n:: lexer\nid: /a/\n:: parser\ninput: aa | bb;\naa: id\n      id;\nbb: id\n  id;\n"
+
+func VerifC23Scripted() {
+	s := NewServer(zap.NewNop())
+	cl := &verifClient{}
+	s.SetClient(cl)
+	ctx := context.Background()
+	u := uri.File("/w/a.tm")
+	def := func(content string, char uint32, want string) {
+		locs, err := s.Definition(ctx, &lsp.DefinitionParams{TextDocumentPositionParams: lsp.TextDocumentPositionParams{TextDocument: lsp.TextDocumentIdentifier{URI: u}, Position: lsp.Position{Line: 5, Character: char}}})
+		verifAssert(err == nil && len(locs) == 1, "definition-found")
+		for _, loc := range locs {
+			verifAssert(loc.URI == u, "definition-in-the-same-document")
+			verifLocation(loc, content, want)
+		}
+	}
+	if verifChoice(2) == 1 {
+		err := s.DidOpen(ctx, &lsp.DidOpenTextDocumentParams{TextDocument: lsp.TextDocumentItem{URI: u, Version: 1, Text: verifConflictDoc, LanguageID: "tm"}})
+		verifAssert(err == nil && len(cl.published) == 1, "open-succeeds")
+		if len(cl.published) == 1 {
+			verifAssert(len(cl.published[0].Diagnostics) > 0, "conflict-is-reported")
+			verifRanges(cl.published[0], verifConflictDoc)
+		}
+		return
+	}
+	first := verifChoice(2)
+	a, b := verifSwap[first], verifSwap[1-first]
+	err := s.DidOpen(ctx, &lsp.DidOpenTextDocumentParams{TextDocument: lsp.TextDocumentItem{URI: u, Version: 1, Text: a, LanguageID: "tm"}})
+	verifAssert(err == nil, "open-succeeds")
+	if verifChoice(2) == 1 {
+		def(a, 7, "ab")
+	}
+	if verifChoice(2) == 1 {
+		err = s.DidChange(ctx, &lsp.DidChangeTextDocumentParams{TextDocument: lsp.VersionedTextDocumentIdentifier{TextDocumentIdentifier: lsp.TextDocumentIdentifier{URI: u}, Version: 2}, ContentChanges: []lsp.TextDocumentContentChangeEvent{{Text: b}}})
+	} else {
+		err = s.DidOpen(ctx, &lsp.DidOpenTextDocumentParams{TextDocument: lsp.TextDocumentItem{URI: u, Version: 2, Text: b, LanguageID: "tm"}})
+	}
+	verifAssert(err == nil, "change-succeeds")
+	if verifChoice(2) == 1 {
+		def(b, 7, "ab")
+	} else {
+		def(b, 10, "cd")
+	}
+	if verifWitnessMode() {
+		verifAssert(false, "witness")
+	}
+}
+
 // verifUnits: number of UTF-16 code units of s
 func verifUnits(s string) int {
 	u := 0
@@ -208,21 +264,31 @@ func verifLineStart(content string, line int) (int, bool) {
 	return off, true
 }
 
-// published ranges lie inside the document, expressed in UTF-16 units
+// published ranges lie inside the document, expressed in UTF-16 units (start and end each inside their own line)
 func verifRanges(p *lsp.PublishDiagnosticsParams, content string) {
 	for _, dg := range p.Diagnostics {
-		start, ok := verifLineStart(content, int(dg.Range.Start.Line))
-		verifAssert(ok, "diagnostic-line-exists")
-		if !ok {
+		su, ok1 := verifLineUnits(content, int(dg.Range.Start.Line))
+		eu, ok2 := verifLineUnits(content, int(dg.Range.End.Line))
+		verifAssert(ok1 && ok2, "diagnostic-line-exists")
+		if !ok1 || !ok2 {
 			continue
 		}
-		end := start
-		for end < len(content) && content[end] != '\n' {
-			end++
-		}
-		units := verifUnits(content[start:end])
-		verifAssert(int(dg.Range.Start.Character) <= units && int(dg.Range.End.Character) <= units && dg.Range.Start.Character <= dg.Range.End.Character, "diagnostic-range-inside-the-line-in-utf16-units")
+		ordered := dg.Range.Start.Line < dg.Range.End.Line || dg.Range.Start.Line == dg.Range.End.Line && dg.Range.Start.Character <= dg.Range.End.Character
+		verifAssert(int(dg.Range.Start.Character) <= su && int(dg.Range.End.Character) <= eu && ordered, "diagnostic-range-inside-the-line-in-utf16-units")
 	}
+}
+
+// verifLineUnits: length of the given line in UTF-16 code units
+func verifLineUnits(content string, line int) (int, bool) {
+	start, ok := verifLineStart(content, line)
+	if !ok {
+		return 0, false
+	}
+	end := start
+	for end < len(content) && content[end] != '\n' {
+		end++
+	}
+	return verifUnits(content[start:end]), true
 }
 
 // verifIdentAt: the identifier at the start of the given line
